@@ -143,6 +143,7 @@ func (p *Parser) MergeDocument(patch *Document) error {
 	}
 
 	if !matched {
+		verifEvent("append", patch.ID, "")
 		p.docs = append(p.docs, patch)
 	}
 
